@@ -27,6 +27,7 @@ import Driver.VerifyFmtMisc
 import Driver.VerifyFmtStatic
 import Driver.VerifyFmtDesBcrypt
 import Driver.TotpTime
+import Driver.CtxIni
 import Driver.CodeDes
 import Driver.CodeIter
 /-
@@ -64,6 +65,7 @@ def dispatch (line : String) : String :=
   | "vfyS" :: rest => Driver.VerifyFmtStatic.handle rest
   | "vfyD" :: rest => Driver.VerifyFmtDesBcrypt.handle rest
   | "ttime" :: rest => Driver.TotpTime.handle rest
+  | "cini" :: rest => Driver.CtxIni.handle rest
   | "cdes" :: rest => Driver.CodeDes.handle rest
   | "citer" :: rest => Driver.CodeIter.handle rest
   | _ => Driver.bad
